@@ -223,6 +223,29 @@ def _describe(v):
 
 
 @task
+def compare_matches(payload):
+    """items: [(pattern1, pattern2, [texts])] -> per item the first text on which re.finditer (MULTILINE|DOTALL) yields
+    different spans / captured groups for the two patterns (match PRIORITY matters here: greedy vs lazy, alternation order),
+    or None"""
+    out = []
+    for p1, p2, texts in payload["items"]:
+        try:
+            r1, r2 = re.compile(p1, re.M | re.S), re.compile(p2, re.M | re.S)
+        except re.error as e:
+            out.append({"error": str(e)})
+            continue
+        diff = None
+        for t in texts:
+            a = [(m.span(), m.groups()) for m in r1.finditer(t)]
+            b = [(m.span(), m.groups()) for m in r2.finditer(t)]
+            if a != b:
+                diff = {"text": t, "first": [list(x[0]) for x in a][:6], "second": [list(x[0]) for x in b][:6]}
+                break
+        out.append(diff)
+    return out
+
+
+@task
 def fixed_width(payload):
     """R6 on a constant: does `re` accept the text as a look-behind body (one fixed width)?"""
     try:
